@@ -17,9 +17,10 @@ TSame     == IsEvent("unmodified") /\ RUnmodified(E.same)
 TBegin    == IsEvent("begin") /\ UNCHANGED rvars          \* marks the start of a test case (may span two executions)
 TSetBase  == IsEvent("setbaseline") /\ RSetBaseline
 TSameBase == IsEvent("samebaseline") /\ RSameAsBaseline
+TAbort    == IsEvent("abort") /\ RAbort
 
 Init == RInit /\ l = 1
-Next == TOpen \/ TRead \/ TClose \/ TTool \/ TGetChunk \/ TScan \/ TValData \/ TSame \/ TSetBase \/ TSameBase \/ TBegin
+Next == TOpen \/ TRead \/ TClose \/ TTool \/ TGetChunk \/ TScan \/ TValData \/ TSame \/ TSetBase \/ TSameBase \/ TBegin \/ TAbort
 Spec == Init /\ [][Next]_tvars
 Accepted == /\ PrintT(<<"MATCHED", TLCGet("stats").diameter - 1, Len(TraceLog)>>)
             /\ TLCGet("stats").diameter - 1 = Len(TraceLog)
